@@ -8,7 +8,7 @@ From Coq Require Import NArith List Bool.
 From Pq Require Import Format.Nested Impl.CAssemble Impl.CAssembleFixed Proofs.NestedProofs Proofs.CAssembleProofs
   Proofs.CAssemblePagesProofs Proofs.NestedMapProofs Proofs.NestedInvProofs
   Proofs.CAssembleTightProofs Proofs.CAssembleFixedProofs Proofs.CAssembleV2Proofs
-  Proofs.NestedStructProofs.
+  Proofs.NestedStructProofs Proofs.CAssemblePyProofs.
 Import ListNotations.
 Open Scope N_scope.
 
@@ -49,6 +49,20 @@ Theorem C15_pages_partial :
 Proof. exact pages_v1_spec. Qed.
 Print Assumptions C15_pages_partial.
 
+(* impl, FULL: read_col as it is now (fix: the leading continuation of a page is appended by
+   read_col itself, _assemble_objects is only called at a row boundary; run_v1_py).  The property's
+   whole quantifier: EVERY cut of an accepted stream into aligned v1 pages - inside rows, only-null
+   continuations, rows spanning any number of pages, empty pages - gives the rows. *)
+Theorem C15_pages_full :
+  forall (V : Type) (sh : shape) (es : list entry) (vs : list V) (rows : list (row V)) (pages : list (page V)),
+    assemble_spec sh es vs = Some rows ->
+    pages_stream pages = (es, vs) -> pages_aligned sh pages = true ->
+    run_v1_py sh (length rows) pages = AOk rows.
+Proof. exact pages_v1_full. Qed.
+Print Assumptions C15_pages_full.
+
+(* the statements below about run_v1 describe the call shape BEFORE that fix (every page handed to
+   _assemble_objects with the carried index): they delimit the two .pyx defects of the function *)
 (* the guard is exact: for every accepted stream cut into non-empty aligned v1 pages, the model of
    today's code returns the rows IF AND ONLY IF the cut satisfies good_split.  Outside the guard
    the result is never the rows (wrong rows, or a fault: slot k of a row whose continued part held
